@@ -379,6 +379,11 @@ add("C03", "open", "lax-raises-parse:python-stack-exhausted-by-nested-expression
 add("C21", "fixed", "missed-unknown-tag", "tags named like the pseudo entries of the tag register ({% illegal %}, {% content %}, {% output %}) were not reported as unknown although the parser rejects them",
     [{"source": "{% illegal %}", "extra": False}, {"source": "{% if a %}{% output x %}{% endif %}", "extra": True}, {"source": "{{ a }}{% content %}t", "extra": False}], "59dd9c3")
 
+# the raw finding has three faces (the raw wrapper is lost by str()): the body renders differently, does not parse, or parses to something that
+# serialises differently again
+add("C04", "fixed", "not-idempotent:raw", "a raw block was serialised without its raw / endraw wrapper, so markup inside the body became live: the body rendered differently, did not parse, or parsed to something that serialised differently again",
+    [c04("{% if a %}{% raw %}{% if x %}{% endraw %}{% endif %}{% else %}{% if b %}y{% endif %}{% endif %}"), c04("{% raw %}{% assign x=1 %}{{x}}{% endraw %}"), c04("{% raw %}{{ a }}{% endraw %}!"), c04("{% raw %}{% %}{% endraw %}")], "a7e1de3")
+
 if __name__ == "__main__":
     # further entries are appended by tools/mkfindings.py from triaged replay files and kept in findings_extra.json
     extra_path = os.path.join(VERIF, "tools", "findings_extra.json")
